@@ -170,9 +170,13 @@ val nth_error : 'a1 list -> nat -> 'a1 option
 
 val map : ('a1 -> 'a2) -> 'a1 list -> 'a2 list
 
+val flat_map : ('a1 -> 'a2 list) -> 'a1 list -> 'a2 list
+
 val fold_right : ('a2 -> 'a1 -> 'a1) -> 'a1 -> 'a2 list -> 'a1
 
 val forallb : ('a1 -> bool) -> 'a1 list -> bool
+
+val filter : ('a1 -> bool) -> 'a1 list -> 'a1 list
 
 val repeat : 'a1 -> nat -> 'a1 list
 
@@ -472,6 +476,10 @@ val pr_stmts : nat -> stmts -> char list list
 
 val print_block : block -> char list list
 
+val exp_vars : cexp -> char list list
+
+val args_vars : cexps -> char list list
+
 val d_cexp_fuel : nat -> sexp -> cexp option
 
 val sexp_depth : sexp -> nat
@@ -638,5 +646,110 @@ val s_rows : value list list -> sexp
 val s_job : job_result -> sexp
 
 val run_run : sexp -> sexp
+
+val occ : char list -> char list list -> nat
+
+val exp_occ : char list -> cexp -> nat
+
+val opt_occ : char list -> char list option -> nat
+
+val decls_occ : char list -> decl list -> nat
+
+val stmt_occ : char list -> stmt -> nat
+
+val block_occ : char list -> block -> nat
+
+val stmts_occ : char list -> stmts -> nat
+
+val stmt_asg : char list -> stmt -> nat
+
+val block_asg : char list -> block -> nat
+
+val stmts_asg : char list -> stmts -> nat
+
+type tri =
+| TNone
+| TOk
+| TBad
+
+val tri_ok : tri -> bool
+
+val is_none : 'a1 option -> bool
+
+val fa_stmt : char list -> stmt -> tri
+
+val fa_block : char list -> block -> tri
+
+val fa_stmts : char list -> stmts -> tri
+
+val is_guard : bool -> char list -> cexp -> bool
+
+val ug_stmt : bool -> char list -> stmt -> nat
+
+val ug_block : bool -> char list -> block -> nat
+
+val ug_stmts : bool -> char list -> stmts -> nat
+
+val rec_bool_op : decl -> stmts -> bool
+
+val ie_stmt : char list -> stmt -> tri
+
+val ie_block : char list -> block -> tri
+
+val ie_stmts : char list -> stmts -> tri
+
+val rec_if_else : decl -> stmts -> bool
+
+val is_capture : char list -> stmt -> bool
+
+val is_throw_if : char list -> stmt -> bool
+
+val fc_stmt : char list -> stmt -> tri
+
+val fc_block : char list -> block -> tri
+
+val fc_stmts : char list -> stmts -> tri
+
+val fi_after_loop : char list -> stmts -> bool
+
+val fi_top : char list -> stmts -> bool
+
+val is_true_lit : cexp option -> bool
+
+val rec_is_first : decl -> stmts -> bool
+
+val nn_stmt : char list -> stmt -> tri
+
+val nn_block : char list -> block -> tri
+
+val nn_stmts : char list -> stmts -> tri
+
+val rec_non_null : decl -> stmts -> bool
+
+type verdict = { v_kind : char list; v_name : char list; v_ok : bool }
+
+val classify : decl -> stmts -> verdict list
+
+val rec_stmt : stmt -> verdict list
+
+val rec_block : block -> verdict list
+
+val rec_stmts : stmts -> verdict list
+
+val at_calls : cexp -> nat
+
+val at_calls_args : cexps -> nat
+
+val decls_at : decl list -> nat
+
+val stmt_at : stmt -> nat
+
+val block_at : block -> nat
+
+val stmts_at : stmts -> nat
+
+val s_verdict : verdict -> sexp
+
+val run_recognise : sexp -> sexp
 
 val dispatch : char list -> sexp -> sexp
